@@ -88,6 +88,7 @@ type Scenario struct {
 	Chain     int       `json:"chain,omitempty"`           // C16: number of containers run back to back
 	NilDbg    bool      `json:"nil_dbg,omitempty"`         // WithDebugOutput(nil): errors are reported to nobody (must still not panic)
 	NilOut    bool      `json:"nil_out,omitempty"`         // mode none: WithOutput(nil) (documented: discards any output)
+	NoK       bool      `json:"no_k,omitempty"`            // marker rows carry no render counter (frames may be byte-identical)
 }
 
 func (s *Scenario) nBars() int { return len(s.Bars) }
